@@ -232,28 +232,30 @@ Theorem C19_header_map : forall isReq lim fs n,
 Proof. exact header_map_values. Qed.
 Print Assumptions C19_header_map.
 
-(** Responses: whatever writeHeader emits for a status 100..999 and a header map whose
-    non-"Trailer:" keys are tokens with legal values and a sane Content-Length is accepted by
-    updateResponseFromHeaders with the same status (connection-specific fields, TE != trailers,
-    declared trailers and "Trailer:" keys having been left out by the writer). *)
+(** Responses: for EVERY header map a handler can leave behind — no hygiene assumed, since
+    fixes/C19-response-writer-sanitises-fields.patch makes writeHeader leave out what the peer must
+    reject (names that are no tokens, values with forbidden bytes, empty / non-numeric / second
+    Content-Length, besides connection-specific fields, TE != trailers, declared trailers and
+    "Trailer:" keys) — the emitted section is accepted by updateResponseFromHeaders with the same status. *)
 Theorem C19_writer_parser_agree_response : forall status h lim,
-  100 <= status <= 999 -> rsp_hdr_ok h -> rsp_cl_ok h -> section_size (rsp_fields status h) <= lim ->
+  100 <= status <= 999 -> section_size (rsp_fields status h) <= lim ->
   exists r, updateResponseFromHeaders lim (rsp_fields status h) false = inr r /\
             rsCode r = status /\ rsCL r = hCL (hdr_of (rsp_fields status h)).
 Proof. exact response_agree. Qed.
 Print Assumptions C19_writer_parser_agree_response.
 
-(** Trailers (both writers): a written trailer section is never empty, is accepted by
-    parseTrailers and decodes to the same fields; and NOTHING is written exactly when no
-    sendable trailer has a value (the emit / no-emit decision). *)
+(** Trailers (both writers), for EVERY trailer map (fixes/C19-write-trailers-sanitises-fields.patch):
+    a written trailer section is never empty, is accepted by parseTrailers and decodes to the same
+    fields; and NOTHING is written exactly when no sendable trailer has a sendable value. *)
 Theorem C19_writer_parser_agree_trailers : forall t fs lim,
-  write_trailers t = Some fs -> tmap_ok t -> section_size fs <= lim ->
+  write_trailers t = Some fs -> section_size fs <= lim ->
   fs <> [] /\ parseTrailers lim fs false = inr (trailers_of fs).
 Proof. exact trailers_agree. Qed.
 Print Assumptions C19_writer_parser_agree_trailers.
 
 Theorem C19_trailers_emit_decision : forall t,
-  write_trailers t = None <-> (forall k vs, In (k, vs) t -> valid_to_send k = true -> vs = []).
+  write_trailers t = None <->
+  (forall k vs v, In (k, vs) t -> valid_to_send k = true -> In v vs -> value_ok v = false).
 Proof. exact trailers_none. Qed.
 Print Assumptions C19_trailers_emit_decision.
 
@@ -266,17 +268,19 @@ Example C19_nonvacuous_writer_request :
 Proof. exact (conj ex_req_pre ex_req_emitted). Qed.
 Print Assumptions C19_nonvacuous_writer_request.
 
+(** The former witnesses of the repaired response-writer defects (audit round): a handler map with an
+    empty, a contradicting and a non-numeric Content-Length, a value containing LF and a name containing
+    a space now yields a clean section that the client accepts. *)
 Example C19_nonvacuous_writer_response :
-  rsp_hdr_ok [(bs "Content-Type", [bs "text/plain"]); (bs "Connection", [bs "close"]); (bs "Content-Length", [bs "5"])] /\
-  rsp_cl_ok [(bs "Content-Type", [bs "text/plain"]); (bs "Connection", [bs "close"]); (bs "Content-Length", [bs "5"])] /\
-  rsp_fields 200 [(bs "Content-Type", [bs "text/plain"]); (bs "Connection", [bs "close"]); (bs "Content-Length", [bs "5"])] =
-  [mk ":status" "200"; mk "content-type" "text/plain"; mk "content-length" "5"].
+  rsp_fields 200 ex_rsp_dirty = [mk ":status" "200"; mk "content-length" "5"; mk "x-a" "ok"] /\
+  exists r, updateResponseFromHeaders 65536 (rsp_fields 200 ex_rsp_dirty) false = inr r /\ rsCode r = 200 /\ rsCL r = 5.
 Proof. exact ex_rsp_ok. Qed.
 Print Assumptions C19_nonvacuous_writer_response.
 
 Example C19_nonvacuous_writer_trailers :
-  write_trailers [(bs "X-Checksum", [bs "abc"]); (bs "Upgrade", [bs "x"]); (bs "X-Empty", [])] = Some [mk "x-checksum" "abc"] /\
-  write_trailers [(bs "X-Checksum", []); (bs "Upgrade", [bs "x"]); (bs "Content-Length", [bs "5"])] = None.
+  write_trailers [(bs "X-Checksum", [bs "abc"; bs "a" ++ [10] ++ bs "b"]); (bs "Upgrade", [bs "x"]); (bs "X T", [bs "v"]); (bs "X-Empty", [])]
+    = Some [mk "x-checksum" "abc"] /\
+  write_trailers [(bs "X-Checksum", [[0]]); (bs "Upgrade", [bs "x"]); (bs "Content-Length", [bs "5"]); (bs "X-Nil", [])] = None.
 Proof. exact ex_trailers. Qed.
 Print Assumptions C19_nonvacuous_writer_trailers.
 
@@ -309,7 +313,7 @@ Proof. exact response_agree_headers. Qed.
 Print Assumptions C19_writer_parser_agree_response_headers.
 
 Theorem C19_writer_parser_agree_trailer_values : forall t fs lim n,
-  write_trailers t = Some fs -> tmap_ok t -> section_size fs <= lim ->
+  write_trailers t = Some fs -> section_size fs <= lim ->
   token_ok n = true -> lower_ok n = true ->
   exists m, parseTrailers lim fs false = inr m /\ hget (canon n) m = opt_values (trailers_expected t n).
 Proof. exact trailers_agree_values. Qed.
@@ -337,7 +341,16 @@ Proof. exact decode_trailers_sound. Qed.
 Print Assumptions C19_decode_trailers_sound.
 
 Theorem C19_writer_decode_agree : forall t fs maxb enclen,
-  write_trailers t = Some fs -> tmap_ok t -> enclen <= maxb -> section_size fs <= maxb ->
+  write_trailers t = Some fs -> enclen <= maxb -> section_size fs <= maxb ->
   decode_trailers maxb enclen false fs = inr (trailers_of fs).
 Proof. exact writer_decode_agree. Qed.
 Print Assumptions C19_writer_decode_agree.
+
+(** WriteHeader's defaults: a Date is always present afterwards; a canonical Content-Length whose first
+    value is non-empty is numeric (a malformed one is deleted); every other key is left alone. *)
+Theorem C19_write_header_defaults : forall d h,
+  get_exact (bs "Date") (rsp_prepare d h) <> None /\
+  (forall c cs, get_exact k_content_length (rsp_prepare d h) = Some (c :: cs) -> c <> [] -> exists v, parse_uint63 c = Some v) /\
+  (forall k, k <> bs "Date" -> k <> k_content_length -> get_exact k (rsp_prepare d h) = get_exact k h).
+Proof. exact rsp_prepare_spec. Qed.
+Print Assumptions C19_write_header_defaults.
